@@ -78,6 +78,8 @@ def gen_host(r):
 def gen_path(r):
     n = r.randint(0, 5)
     sep = r.choice(["/", "/", "/", "\\", "//"])
+    if r.random() < 0.08:
+        return r.choice(["//", "/.//", "///", "/a/..//", "/..//", "/.//x", "//x", "/./", "/a/../..//b"])
     return "".join(r.choice(["/", "/", "/", "\\", ""]) + r.choice(SEGS) for _ in range(n)) if n else r.choice(["", "/", "\\", "//", "/."])
 
 def gen_url(r):
@@ -96,7 +98,7 @@ def gen_url(r):
     s += sl
     if sl in ("//", "\\\\", "/\\", "\\/", "///", "////") or (scheme in SPECIAL and r.random() < 0.7):
         s += r.choice(CREDS) if r.random() < 0.4 else ""
-        s += gen_host(r)
+        s += gen_host(r) if r.random() < 0.92 else ""
         s += r.choice(PORTS) if r.random() < 0.5 else ""
     s += gen_path(r)
     if r.random() < 0.4: s += r.choice(QUERIES)
@@ -150,3 +152,26 @@ def bounded_strings(alphabet, maxlen):
     for n in range(maxlen + 1):
         for t in itertools.product(alphabet, repeat=n):
             yield list(t)
+
+
+# ---------------------------------------------------------------- corpus of known-tricky inputs
+TRAPS = [
+    "foo://user@/path", "foo://u:p@", "foo://@/x", "//user@/p", "foo://@", "foo://:@/", "http://u@/", "http://@h/", "http://:@h/", "http://u:@h/",
+    "http://%31.2.3.4.5/", "http://1.2.3.%32%35%36/", "https://example.%30x/", "http://\uff11.2.3.4.5/", "http://xn--mnchen-3ya.0x100000000/", "file://%31.2.3.4.5/share",
+    "http://h:000080/", "http://f:00000000000000/c", "foo://h:0065535?q", "//h:000021/x", "http://h:65535/", "http://h:65536/", "http://h:0/", "http://h:/", "foo://h:/",
+    "non-spec:/.//", "non-spec:/a/..//", "non-spec:/..//", "non-spec:/.//p", "non-spec://h/.//p", "non-spec:/./", "non-spec:/..", "non-spec:/a/..", "non-spec:/a/.", "non-spec:a/..",
+    "file:///C:", "file:///C:/", "file:///C:/..", "file:///C|/..", "file://host/d:", "file:C:", "file:/C:/", "file:\\\\h\\C:", "file://C:/x", "file://C|/x", "file://c:/x/../y", "file:///c:\\x",
+    "file://localhost", "file://localhost/", "file://LOCALHOST/x", "file://loc%61lhost/x", "file:///x", "file:/x", "file:x", "file:", "file:?q", "file:#f", "file:..", "file:/..",
+    "http:x", "http:/x", "http://x", "http:///x", "http:////x", "http:\\\\x", "http:/\\x", "http:", "http:/", "http://", "http:?", "http:#", "https:/?#",
+    "a:", "a:b", "a:/", "a:/b", "a://", "a://b", "a:///", "a:///b", "a:?", "a:#", "a:b?c#d", "a: b ", "a:b c", "a:b\tc", "a:%zz", "a:\x00\x1f\x7f\u00e9",
+    "", " ", "#", "?", "/", "//", "///", ".", "..", "./", "../", "/..", "/.", "x", "x:", ":x", ":", "::", "1:", "a+b-c.d:", "A:", "a\u00e9:",
+    "http://a@b@c/", "http://a:b@c:d@e/", "http://a%40b:c%3Ad@h/", "http://[::1]@h/", "http://h@[::1]/", "http://u:p@[::1]:80/", "http://[::1]:/", "http://[::1]x/", "http://[::1/", "http://::1]/",
+    "http://h/%2e", "http://h/%2E/", "http://h/.%2e", "http://h/%2e.", "http://h/%2e%2E/x", "http://h/a/%2e%2e/b", "http://h/a/.%2E", "http://h/..%2e", "http://h/%2e%2e%2e", "http://h/%2", "http://h/%2g", "http://h/%",
+    "http://h/a\\b", "a://h/a\\b", "http://h\\a", "a://h\\a", "http:\\\\h", "http://h?a\\b", "http://h#a\\b", "http://h/?'", "a://h/?'", "wss://h/?'\"<>#'\"<>`",
+    "http://h/ ", "http://h/\t\n\r", "ht\ttp://h/", "http://h\n/", "http:\t//h", "\x00http://h/", "http://h/\x00", "http://h/\x7f", "http://h/\u00e9?\u00e9#\u00e9", "http://h/\U0001f4a9",
+    "http://%zz/", "http://%/", "http://a%2fb/", "http://a%3ab/", "http://a%40b/", "http://a%5bb/", "http://a%23b/", "http://%41%42/", "http://a..b/", "http://.a/", "http://a./", "http://a../", "http://./", "http://../",
+    "blob:", "blob:http://h/x", "blob:https://h:443/", "blob:file:///x", "blob:ftp://h/", "blob:x", "blob:blob:http://h/", "blob:http://h:80/x#f",
+    "ws://h", "wss://h:443", "ftp://h:21", "https://h:80", "http://h:443", "ws:h", "wss:/h", "ftp:\\\\h",
+    "C|/x", "/C|/x", "C:/x", "/C:/x", "\\\\C|\\x", "//C|/x", "///C|/x", "C|", "C|?q", "C|#f", "C|x", "CC|/x", "1|/x",
+    "mailto:a@b", "mailto:a@b?subject=x y", "javascript:alert(1) ", "data:text/html,<a> b", "about:blank#x y", "a:b #c", "a:b ?c", "a:b  ",
+]
